@@ -186,10 +186,10 @@ def apply_step(ops, step, prefixes=None, tables=None):
 def build(hist, tables=None, want_prefixes=False):
     """history -> real ViewRepresentation (raises whatever the builder raises)."""
     cols = None
-    if tables is not None and hist["table"] in tables:
-        cols = tables[hist["table"]]
-    elif "columns" in hist:
+    if "columns" in hist:
         cols = hist["columns"]
+    elif tables is not None and hist["table"] in tables:
+        cols = tables[hist["table"]]
     ops = table_description(hist["table"], cols)
     prefixes = [ops]
     for st in hist["steps"]:
